@@ -31,6 +31,11 @@ def section(kind, n, body="ctx", src="git"):
                                  sum(1 for l in bl if l[:1] in b" +"))
     info = dict(kind=kind, old=f, new=f, event="modified", has_hunk=True, hunk_lines=bl,
                 mode=None, binary=False, body=body)
+    if src in ("diffu", "diffu_bare") and kind == "binary":
+        # GNU diff -r writes a single line for a binary file, without a `diff` command line
+        lines = [b"Binary files a/" + f + b" and b/" + f + b" differ"]
+        info.update(event="binary", binary=True, has_hunk=False, hunk_lines=[], old=b"a/" + f, new=b"b/" + f)
+        return lines, info
     if src in ("diffu", "diffu_bare"):
         # plain `diff -ru` output: no git extended headers; "diffu_bare": outputs of several `diff -u a b`
         # runs one after the other, i.e. no `diff` line between files
